@@ -22,6 +22,8 @@ pub struct GenCfg<'a> {
     pub deco: Option<Class>,
     pub typename: bool,
     pub op: OpKind,
+    /// offer fragments (inline or spread) directly under the operation root
+    pub root_fragments: bool,
 }
 
 pub struct GenDoc {
@@ -138,7 +140,7 @@ impl<'a, 'c> G<'a, 'c> {
             if self.cfg.typename {
                 menu.push(M::Typename);
             }
-            if can_nest {
+            if can_nest && (depth > 0 || self.cfg.root_fragments) {
                 menu.push(M::Inline(None));
                 for c in self.cfg.conds {
                     menu.push(M::Inline(Some(c.to_string())));
